@@ -126,6 +126,7 @@ def worker_task(args):
     t0 = time.time()
 
     def body(case):
+        last_fail["last_case"] = case
         try:
             run_case(check, case, stats, open_findings)
         except Violation as v:
@@ -163,7 +164,7 @@ def worker_task(args):
             "details": fv.details,
         }
     except eng.Inconclusive as e:
-        result["inconclusive"] = str(e)
+        result["inconclusive"] = f"{e} on case {json.dumps(last_fail.get('last_case'))[:600]}"
     except BaseException as e:  # noqa: BLE001 - harness error: infrastructure, not a violation
         if "v" in last_fail:
             fv = last_fail["v"]
@@ -174,7 +175,9 @@ def worker_task(args):
                 "details": fv.details,
             }
         else:
-            result["inconclusive"] = "harness error: " + "".join(traceback.format_exception(type(e), e, e.__traceback__))[-3000:]
+            tb = "".join(traceback.format_exception(type(e), e, e.__traceback__))
+            kind = "wall limit" if "Inconclusive" in tb else "harness error"
+            result["inconclusive"] = f"{kind} on case {json.dumps(last_fail.get('last_case'))[:600]}: " + tb[-1500:]
     result["stats"] = stats.to_json()
     result["wall_s"] = time.time() - t0
     return result
